@@ -1,6 +1,7 @@
 package xcodec
 
 import (
+	"math"
 	"math/rand"
 	"reflect"
 	"strings"
@@ -35,15 +36,43 @@ func (g *Gen) String() string {
 	return stringPool[g.R.Intn(len(stringPool))]
 }
 
-// Float returns a multiple of 1/128 (exactly representable, printed without exponent).
+// FineFloats are coordinates that need more than 7 decimals: quotients, sums that are not
+// multiples of 1e-7, values below 1e-7, web-mercator tile edges (zoom 7, 12, 18), the float64
+// neighbours of a 7-decimal coordinate, and large/small exponents (strconv switches notation).
+var FineFloats = func() []float64 {
+	out := []float64{1.0 / 3, -2.0 / 3, 0.1 + 0.2, 50.7107023 + 1e-7, 1e-9, -1e-9, 5e-8, 1.00000005, -179.99999995,
+		math.Nextafter(50.7107023, 100), math.Nextafter(-0.1278, -1), 89.123456789, -122.41941550000001,
+		1e-7 / 3, 1.5e-5, 123456789.125, 1e21, 1e-320, math.SmallestNonzeroFloat64, 180 - 1e-13, 85.0511287798066}
+	for _, z := range []uint{7, 12, 18} {
+		n := float64(uint(1) << z)
+		for _, y := range []float64{1, n/2 - 1, n/3 + 1} {
+			y = math.Floor(y)
+			out = append(out, 180/math.Pi*math.Atan(math.Sinh(math.Pi*(1-2*y/n))), y/n*360-180+1/n/3)
+		}
+	}
+	return out
+}()
+
+// Float returns a finite float64: zero, integral, multiples of 1/128 (which print with at most
+// 7 decimals), and — wave 6 — values that need more than 7 significant decimals: a fixed pool
+// and random full-mantissa coordinates.  Every float attribute of every type draws from here.
 func (g *Gen) Float() float64 {
-	switch g.R.Intn(6) {
+	switch g.R.Intn(9) {
 	case 0:
 		return 0
 	case 1:
-		return float64(g.R.Intn(361)-180) // integral
+		return float64(g.R.Intn(361) - 180) // integral
 	case 2:
 		return float64(g.R.Intn(3)-1) / 128 // smallest magnitudes
+	case 3, 4:
+		g.count("float:fine-pool")
+		return FineFloats[g.R.Intn(len(FineFloats))]
+	case 5:
+		g.count("float:fine-random")
+		return g.R.Float64()*360 - 180 // 52 random mantissa bits: ~15 decimals
+	case 6:
+		g.count("float:fine-random")
+		return (float64(g.R.Intn(3600000000)-1800000000) + g.R.Float64()) / 1e7 // a 7-decimal coordinate plus a sub-1e-7 part
 	}
 	return float64(g.R.Intn(2*180*128+1)-180*128) / 128
 }
